@@ -34,6 +34,13 @@ struct ElemW {
     unsigned get_seq() const { return seq; }
     unsigned get_pos() const { return pos; }
     static const char* name() { return Pad ? "ElemW40" : "ElemW16"; }
+    // see VERIF_MISLEADING_ORDER: present, but disagreeing with every comparator in use
+    friend bool operator<(const ElemW& a, const ElemW& b) { return verif::scramble_key(a.key) < verif::scramble_key(b.key); }
+    friend bool operator>(const ElemW& a, const ElemW& b) { return b < a; }
+    friend bool operator<=(const ElemW& a, const ElemW& b) { return !(b < a); }
+    friend bool operator>=(const ElemW& a, const ElemW& b) { return !(a < b); }
+    friend bool operator==(const ElemW& a, const ElemW& b) { return a.key == b.key; }
+    friend bool operator!=(const ElemW& a, const ElemW& b) { return a.key != b.key; }
 };
 
 static const char* MWMA[4] = { "LOSER_TREE", "COMBINED", "SENTINEL", "BUBBLE" };
